@@ -22,6 +22,7 @@ RULE = (
     "3-output CSE programs with the most temporaries, and definitions whose symbols carry sympy assumptions. "
     "distinct = distinct (definition, CSE) pairs; non-trivial = >= 2 input symbols."
     " Saturation constructs (Piecewise) alone and shared by several outputs."
+    " Definitions with a declared but unused control / calibration value; for definitions with calibration the same process evaluates the generated functions with two different calibrations (read per point)."
 )
 ASSUMPTIONS = [
     "the vendored Eigen stand-in is at least as permissive as Eigen 3.4 on the slice the generator emits (DESIGN 2.4)",
